@@ -1,6 +1,6 @@
 From Coq Require Import Ascii String.
 From Coq Require Import List NArith ZArith QArith Bool Arith Lia.
-From V Require Import Str Num Doc Paginate.
+From V Require Import Str Num Tok Items Doc Paginate Checks.
 From V Require Import DocumentWF.
 Import ListNotations.
 Local Open Scope list_scope.
@@ -34,4 +34,32 @@ Proof.
     rewrite (heading_text_all_divider cols keys row (Hsl keys eq_refl)) in E1.
     destruct (hd true slc && negb match keys with [] => true | _ => false end); inv_ok E1; reflexivity. }
   subst. repeat split; lia.
+Qed.
+
+Local Open Scope Z_scope.
+
+(* the greedy loop never trips clause 8 of check_c05: it closes a page before an all-divider row only when a grouping rule
+   forces it or the row's own lines no longer fit - given that such rows are budgeted with their data lines only
+   (divider_row_costs_its_lines) *)
+Lemma loop_never_charges_dividers avail np f keys ms : forall t page cur,
+  (forall i m, nth_error ms i = Some m -> all_divider_row f keys (t + i)%nat = true -> rm_total m = rm_data m) ->
+  c05_divider_cost avail np f keys ms (assign_loop avail np ms false page cur) t page cur = false.
+Proof.
+  induction ms as [|m ms IH]; intros t page cur H; cbn [assign_loop c05_divider_cost]; [reflexivity|].
+  cbn [negb]. rewrite !andb_true_r.
+  set (force := rm_ss m || np && rm_gs m).
+  set (over := avail <? cur + rm_total m).
+  assert (Hm : all_divider_row f keys t = true -> rm_total m = rm_data m).
+  { intro A. apply (H 0%nat m eq_refl). rewrite Nat.add_0_r. exact A. }
+  assert (Hrest : forall i m', nth_error ms i = Some m' -> all_divider_row f keys (S t + i)%nat = true -> rm_total m' = rm_data m').
+  { intros i m' Hn A. apply (H (S i) m' Hn). rewrite Nat.add_succ_r. exact A. }
+  destruct ((force || over) && (0 <? cur)) eqn:E.
+  - replace (page + 1 =? page) with false by (symmetry; apply Z.eqb_neq; lia).
+    replace (0 + rm_total m) with (rm_total m) by lia.
+    rewrite (IH (S t) (page + 1) (rm_total m) Hrest). rewrite orb_false_r.
+    apply andb_prop in E as [E1 _].
+    destruct (all_divider_row f keys t) eqn:A; [|reflexivity]. cbn [andb].
+    destruct force; [reflexivity|]. cbn [orb negb andb] in *.
+    unfold over in E1. rewrite (Hm eq_refl) in E1. apply Z.ltb_lt in E1. apply Z.leb_gt. exact E1.
+  - rewrite Z.eqb_refl. apply (IH (S t) page (cur + rm_total m) Hrest).
 Qed.
